@@ -34,6 +34,19 @@ def gen(seed):
         if all(b - c >= 2000 for c, b in zip(dup, dup[1:])) and dup[0] - pos[-1] >= 2000:
             pos = pos + dup
             x = dup[-1]
+    # a stretch whose label gaps are almost mirror-symmetric (mirrored gaps differ by 400 - 900 bp: less than a seeding bin, far more than the pairing tolerance of the statement; with differences below
+    # about 300 bp the unchanged program itself can prefer the mirror image - known finding K5): at the coarse seeding resolution its reverse-strand
+    # image correlates about as well as the true strand; only the refinement and the alignment tell them apart
+    rs = random.Random(seed * 53 + 9)
+    half = [2000 + int(rs.expovariate(1 / 7000.0)) for _ in range(rs.randint(8, 12))]
+    gaps = half + [max(2000, g + rs.choice((-1, 1)) * rs.randint(400, 900)) for g in reversed(half)]
+    x = pos[-1] + rs.randint(20000, 60000)
+    sym_a = len(pos)
+    pos.append(x)
+    for g in gaps:
+        x += g
+        pos.append(x)
+    sym_k = len(pos) - sym_a
     for _ in range(6):
         x += 2000 + int(rnd.expovariate(1 / 7500.0))
         pos.append(x)
@@ -56,12 +69,24 @@ def gen(seed):
         queries.append((qid, lab[-1] + tail, lab))
         # true pairs in ascending reference order
         truth[qid] = dict(reverse=rev, pairs=[(a + i + 1, (k - i) if rev else (i + 1)) for i in range(k)])
+    a, k, rev = sym_a, sym_k, rs.random() < 0.5
+    lab = [p - pos[a] for p in pos[a:a + k]]
+    if rev:
+        lab = sorted(lab[-1] - p for p in lab)
+    queries.append((30, lab[-1] + 1, lab))
+    truth[30] = dict(reverse=rev, pairs=[(a + i + 1, (k - i) if rev else (i + 1)) for i in range(k)])
     return ref, queries, truth
 
 
-def run_case(case):
+def run_case(case, explicit=None):
     seed, mode = case
-    ref, queries, truth = gen(seed)
+    if explicit is not None:
+        ref = tuple(explicit['reference'][:2]) + (list(explicit['reference'][2]),)
+        q = explicit['query']
+        queries = [(q[0], q[1], list(q[2]))]
+        truth = {q[0]: dict(reverse=explicit['truth']['reverse'], pairs=[tuple(x) for x in explicit['truth']['pairs']])}
+    else:
+        ref, queries, truth = gen(seed)
     d = pl.make_workdir([ref], queries)
     bad = []
     try:
@@ -86,7 +111,7 @@ def run_case(case):
             r = rs[0]
             if r['RefContigID'] != '1' or (r['Orientation'] == '-') != t['reverse']:
                 bad.append(('reported_on_the_true_reference_and_strand', dict(query=qid, orientation=r['Orientation'])))
-            elif r['_pairs'] != t['pairs']:
+            elif [tuple(x) for x in r['_pairs']] != [tuple(x) for x in t['pairs']]:
                 bad.append(('exactly_the_true_label_pairs', dict(query=qid, got=r['_pairs'][:8], want=t['pairs'][:8], n_got=len(r['_pairs']), n_want=len(t['pairs']))))
             elif r['HitEnum'] != f"{len(t['pairs'])}M":
                 bad.append(('no_hitenum_gaps', dict(query=qid, hitenum=r['HitEnum'])))
@@ -115,14 +140,17 @@ def bounded(repo, tier, seed):
             viol.setdefault(key, dict(key=key, blame=RUN, input=dict(seed=case[0], mode=case[1]), observed=detail, required='C06 statement'))
     return result(n, n, "single-reference maps of 60-140 labels with spacing >= 2 kb (mean about 9.5 kb); per map 8 planted queries = exact copies of interior windows "
                         "of 15-45 labels at least 4 labels from either end, either strand, random coordinate offset and trailing length; two of the windows re-appear further "
-                        "on as near-duplicates (every label displaced by 60-450 bp); default parameters; "
+                        "on as near-duplicates (every label displaced by 60-450 bp), one more query copies a stretch with almost mirror-symmetric gaps; default parameters; "
                         "the planted query must be reported once, on the true reference and strand, with exactly the true pairs, HitEnum nM, every pair within "
                         "200 bp of its seed diagonal; every planting is non-trivial (distinct window)", [dict(seed=cases[0][0], mode=cases[0][1])],
-                  list(viol.values())[:5], exhaustive=False, bounds=f"{len(cases)} maps x 8 plantings")
+                  list(viol.values())[:5], exhaustive=False, bounds=f"{len(cases)} maps x 9 plantings")
 
 
 def replay(repo, rp):
     from bcheck.common import use_repo
     use_repo(repo)
-    case, bad, _ = run_case((rp['input']['seed'], rp['input']['mode']))
+    if 'explicit' in rp['input']:
+        case, bad, _ = run_case((0, rp['input']['mode']), rp['input']['explicit'])
+    else:
+        case, bad, _ = run_case((rp['input']['seed'], rp['input']['mode']))
     return (not bad), bad[:3]
